@@ -141,7 +141,32 @@ def generate(repo):
                             exp = {"1": "first", "2": "second"}.get(k, "?") if "".join(who.split()) == "".join(partner.split()) else "?"
                         write_rows.append((rel, ("force:" if "/force/" in rel else "calc:") + os.path.basename(rel).rsplit(".", 1)[0], cls + "::" + name, partner, layout, exp, m.group(2), m.group(3)))
                 walk(nodes, [], visit)
-    if not set_rows or not write_rows:
+    # ---- serial branch versus OpenMP branch of one kernel: the same increments (partner, += / -=, right-hand side)
+    inc_rows = []
+
+    def norm(x):
+        x = re.sub(r"\s+", "", x).replace("this->", "")
+        x = re.sub(r"\[_?[a-zA-Z]\w*\]$", "", x)          # component index of the OpenMP copy loop
+        x = re.sub(r"\(\w+,\w+\)$", "", x)
+        x = re.sub(r"\((\w+)\)", r"\1", x)                # (name) -> name
+        return x
+    for path in sorted(files):
+        raw = open(path, errors="replace").read()
+        if "vectorDoubleByOffset" not in raw:
+            continue
+        rel = os.path.relpath(path, repo)
+        src = strip_guarded(strip_comments(raw))
+        for m in re.finditer(r"#\s*if(n?)def\s+_OPENMP\s*\n(.*?)#\s*else\s*\n(.*?)#\s*endif", src, re.S):
+            a, b = m.group(2), m.group(3)
+            ser, omp = (a, b) if m.group(1) == "n" else (b, a)
+            if "vectorDoubleByOffset" not in omp:
+                continue
+            sw = re.findall(r"([\w\->\(\)\.]+?)->(?:force\s*\[[^\]]*\]|tag\s*\.\s*\w+\s*\([^;]*?\))\s*(?:\[[^\]]*\]|\([^)]*\))?\s*(\+=|-=)\s*([^;]+);", ser)
+            ow = re.findall(r"\(\s*\*\s*([\w\->\(\)\.]+?)->tag\s*\.\s*vectorDoubleByOffset\s*\([^;]*?\)\s*\)\s*\[[^;]*?\]\s*(\+=|-=)\s*([^;]+);", omp)
+            S = sorted(set("%s %s %s" % (x[0], x[1], norm(x[2])) for x in sw))
+            O = sorted(set("%s %s %s" % (x[0], x[1], norm(x[2])) for x in ow))
+            inc_rows.append((rel, " ; ".join(S), " ; ".join(O)))
+    if not set_rows or not write_rows or not inc_rows:
         raise TranslateError("no setForceSlots blocks / copy-vector writes found (OpenMP branch)")
 
     def q(s):
@@ -168,10 +193,17 @@ def writeSites : List (String × String × String × String × String × String 
 def calcSites : List (String × String × String × String × String) := [
 %s]
 
+/-- every kernel with a serial and an OpenMP branch (`#ifndef _OPENMP … #else … #endif`): the set of increments
+`partner op right-hand side` of the serial branch and of the OpenMP branch (component index of the copy loop removed):
+`(file, serial increments, OpenMP increments)` -/
+def incSites : List (String × String × String) := [
+%s]
+
 end Sympler.Gen.ForceSlots
 """ % (",\n".join("  (%s, %s)" % (", ".join(q(x) for x in r[:-1]), "true" if r[-1] else "false") for r in set_rows),
        ",\n".join("  (%s)" % ", ".join(q(x) for x in r) for r in write_rows),
-       ",\n".join("  (%s)" % ", ".join(q(x) for x in r) for r in calc_rows))
+       ",\n".join("  (%s)" % ", ".join(q(x) for x in r) for r in calc_rows),
+       ",\n".join("  (%s)" % ", ".join(q(x) for x in r) for r in inc_rows))
     return out
 
 
